@@ -2,6 +2,7 @@ package main
 
 import (
 	"fmt"
+	"os"
 
 	"golang.org/x/tools/go/ssa"
 )
@@ -43,7 +44,10 @@ func init() {
 	checks["C05"] = func(c *CheckCtx) {
 		lit, mk, ml := int64(4), int64(2), int64(1)
 		if c.Tier == "thorough" {
-			lit, mk, ml = 5, 2, 2
+			lit, mk, ml = 8, 2, 1 // one literal of up to 8 bytes; two literals of up to 4 bytes run as a second configuration below ((5,2,2) exhausted a budget of 400000 paths)
+		}
+		if v := os.Getenv("VERIF_C05_BOUND"); v != "" { // debugging aid: "lit,keys,lits"
+			fmt.Sscanf(v, "%d,%d,%d", &lit, &mk, &ml)
 		}
 		cfgs := []*HarnessCfg{
 			{Name: "VerifC05_SelfMatch", Pkg: detPkg, Solver: "cvc5", OneShot: true, TimeoutMs: 120000, MaxPaths: 400000, Params: map[string]int64{"mode": 0},
@@ -58,9 +62,16 @@ func init() {
 				}},
 			{Name: "VerifC05_StoreRoundTrip", Pkg: pebPkg, Solver: "cvc5", TimeoutMs: 60000, MaxPaths: 400000},
 		}
+		if c.Tier == "thorough" {
+			cfgs = append(cfgs, &HarnessCfg{Name: "VerifC05_SelfMatch", Pkg: detPkg, Solver: "z3", TimeoutMs: 60000, MaxPaths: 400000, Params: map[string]int64{"mode": 1, "litlen": 4, "maxkeys": 2, "maxlits": 2},
+				Stubs: map[string]Intrinsic{
+					detPkg + ".GenerateTopologyHash":                     hashByIdentity("th"),
+					repoMod + "/pkg/analysis/topology.GenerateFuzzyHash": hashByIdentity("fz"),
+				}})
+		}
 		c.Assumptions = append(c.Assumptions, pebbleAssumptions...)
 		c.Assumptions = append(c.Assumptions,
-			"self-match lemma: counters, flags and entropy symbolic (entropy in [0,8]); up to 2 call-signature keys of 1-2 letters, up to 2 string literals of up to 4 (6) bytes over letters, '.', '\"'; hashing is 'same object => same hash'",
+			"self-match lemma: counters, flags and entropy symbolic (entropy in [0,8]); up to 2 call-signature keys of 1-2 letters, one string literal of up to 4 (thorough 8) bytes, thorough also two literals of up to 4 bytes, over letters, '.', '\"'; hashing is 'same object => same hash'",
 			"store path: pool topologies (concrete shapes) indexed with the real IndexFunction and found again through the Pebble contract model in full and exact mode at a symbolic threshold in (0,1]; the JSON back end's scan path is covered by the C08 harness",
 			"that renaming/reformatting leaves the extracted topology unchanged (ExtractTopology over go/ssa) is not encoded: stated gap")
 		c.runModeT([]string{"pkg/detection", "pkg/storage/pebbledb"}, cfgs)
